@@ -13,7 +13,7 @@ import traceback
 import z3
 
 from .contracts import REGISTRY, Contract
-from .core import Obligation, State, fresh_name
+from .core import Obligation, State, fresh_name, pin
 from .expr import OK, RAISE
 from .specs import SpecLib
 from .stmt import BREAK, CONTINUE, NORMAL, RETURN, StmtMixin, loops_in_order
@@ -47,6 +47,9 @@ class Engine(StmtMixin):
         self.cur_module = mod
         self.cur_class = qual.split(".")[0] if "." in qual and qual.split(".")[0] in self.src.classes else None
         self.cur_contract = c
+        self.speclib.opaque = set(self.speclib.base_opaque) | set(getattr(c, 'hide', ()))
+        self.speclib._declared_all = False
+        self.speclib.declare_all()
         self.speclib.revealed = set(c.unfold)
         self.cur_fn_node = fn
         self.loop_ord = loops_in_order(fn)
@@ -56,8 +59,11 @@ class Engine(StmtMixin):
         self.axioms = AxiomList()
         import z3 as _z3
         self._feas = _z3.Solver()
-        self._feas.set("timeout", 250)
+        self._feas.set("timeout", 1000)
         self._feas_stack = []
+        from .abstraction import Abstractor as _Abstractor
+
+        self._feas_abs = _Abstractor(self.V)
         self.used_contracts = set()
         U = self.U
         env = {}
@@ -144,7 +150,7 @@ class Engine(StmtMixin):
         from .core import _has_quant
 
         t0 = time.time()
-        depth = max(depth, getattr(self, "default_depth", 0))
+        depth = max(depth, getattr(self, "default_depth", 0), getattr(self.cur_contract, "depth", 0) or 0)
         base = list(ob.hyps) + list(self.axioms)
         goal = ob.goal
         if ob.must_be_sat:
@@ -155,7 +161,8 @@ class Engine(StmtMixin):
             forms = [_abstract_quant(f) for f in base if not _has_quant(f)] + [_abstract_quant(goal)]
             r = self._check(forms, timeout_ms)[0]
             if r == z3.unknown:
-                s2 = z3.Solver()  # default tactic (no timeout parameter) is more complete on sat instances
+                s2 = z3.Solver()  # the default tactic is more complete on sat instances
+                s2.set("timeout", int(max(timeout_ms, 10000)))
                 for f in forms:
                     s2.add(f)
                 r = s2.check()
@@ -163,6 +170,18 @@ class Engine(StmtMixin):
         neg = z3.Not(self._skolemize(goal))
         forms = base + [neg]
         allf = self.saturate(forms, base, depth, focus=[neg])
+        self.last_rung = "direct"
+        # cheapest rung first: sequence / string theory abstracted away (pyvc/abstraction.py); only `unsat` counts
+        from .abstraction import Abstractor, Untranslatable
+
+        try:
+            ab = Abstractor(self.V).run(allf)
+            r = self._check(ab, min(timeout_ms, 4000), retries=False)[0]
+        except (z3.Z3Exception, Untranslatable, KeyError):
+            r = z3.unknown
+        if r == z3.unsat:
+            self.last_rung = "abstract-seq"
+            return "proved", time.time() - t0, None
         r, model = self._check(allf, timeout_ms)
         if r != z3.unsat:
             # `sat` under partial unfolding is not a verdict either: try the assisted ladder before looking for a witness
@@ -277,6 +296,10 @@ class Engine(StmtMixin):
         have = {f.get_id() for f in allf}
         src = list(focus) if focus is not None else list(forms)
         new = list(src)
+        if focus is not None:
+            # spec applications among the hypotheses that talk about a compound ground term of the goal (an element
+            # s[t], an attribute of it, ...) are expanded too: the goal itself may contain no spec application at all
+            new += self._goal_relevant_apps(forms, focus)
         for _ in range(rounds):
             unfolded = self.speclib.unfold(new, depth=depth, known=known)
             facts = [f for f in unfolded if f.get_id() not in have]
@@ -300,6 +323,30 @@ class Engine(StmtMixin):
                 break
         fresh_ax = [a for a in self.axioms[n_ax:] if a.get_id() not in have]
         return allf + fresh_ax
+
+    def _goal_relevant_apps(self, forms, focus):
+        goal_terms = set()
+        stack, seen = list(focus), set()
+        while stack:
+            t = stack.pop()
+            if t.get_id() in seen:
+                continue
+            seen.add(t.get_id())
+            if z3.is_quantifier(t):
+                continue
+            if z3.is_app(t):
+                if t.num_args() and t.sort() == self.V:
+                    goal_terms.add(t.get_id())
+                stack.extend(t.children())
+        if not goal_terms:
+            return []
+        self.speclib.declare_all()
+        by_decl = {d.name(): n for n, d in self.speclib.decls.items()}
+        out = []
+        for a in self.speclib._apps(forms, by_decl):
+            if any(a.arg(i).get_id() in goal_terms for i in range(a.num_args())):
+                out.append(a)
+        return out
 
     def _nth_of_definitions(self, allf, have, sources=None):
         """For a sequence-valued spec application S with a definitional instance S == body in the query and
@@ -366,7 +413,10 @@ class Engine(StmtMixin):
                         if key in seen_inst:
                             continue
                         seen_inst.add(key)
-                        new.append(z3.Implies(q, z3.substitute_vars(q.body(), idx)))
+                        if q.is_forall():
+                            new.append(z3.Implies(q, z3.substitute_vars(q.body(), idx)))
+                        else:  # witness introduction: psi(t) -> exists j. psi(j)
+                            new.append(z3.Implies(z3.substitute_vars(q.body(), idx), q))
             if not new:
                 break
             added.extend(new)
@@ -375,7 +425,7 @@ class Engine(StmtMixin):
                 srcids |= {f.get_id() for f in new}
         return added
 
-    def _check(self, forms, timeout_ms, inert=True):
+    def _check(self, forms, timeout_ms, inert=True, retries=True):
         """z3 on one query. Observed: (i) with its own quantifier instantiation on, z3 runs into matching loops
         on the nested well-formedness predicates, while the quantifiers that matter (over sequence positions)
         are instantiated by `_instantiate` anyway; (ii) on seq + datatype queries z3 sometimes gives up at once
@@ -408,7 +458,7 @@ class Engine(StmtMixin):
         plan.append((timeout_ms, False))
         last = z3.unknown
         for budget, inert_q in plan:
-            for seed in (0, 7, 23):
+            for seed in ((0, 7, 23) if retries else (0,)):
                 r, m, quick = attempt(budget, inert_q, seed)
                 if r == z3.unsat:
                     return z3.unsat, None
@@ -545,7 +595,7 @@ _nov_cache = {}
 
 def _scan_quant_nth(f):
     """(universal one-variable quantifiers, ground s[t] terms grouped by id(s)) occurring in f -- cached per formula"""
-    k = f.get_id()
+    k = pin(f)
     hit = _scan_cache.get(k)
     if hit is not None:
         return hit
@@ -557,7 +607,7 @@ def _scan_quant_nth(f):
             continue
         seen.add(t.get_id())
         if z3.is_quantifier(t):
-            if t.is_forall() and t.num_vars() == 1:
+            if (t.is_forall() or t.is_exists()) and t.num_vars() == 1:
                 quants[t.get_id()] = t
             stack.append(t.body())
             continue
@@ -570,7 +620,7 @@ def _scan_quant_nth(f):
 
 
 def _nth_on_var_cached(q):
-    k = q.get_id()
+    k = pin(q)
     if k not in _nov_cache:
         _nov_cache[k] = [sq for sq in _nth_on_var(q.body()) if not _has_free_var(sq)]
     return _nov_cache[k]
@@ -627,7 +677,7 @@ def _solve_child(eng, ob, timeout_ms, wfd):
         if verdict == "unknown":
             verdict, dt2, model = eng.solve(ob, timeout_ms * 3, depth=3)
             dt += dt2
-        rec = {"verdict": verdict, "seconds": round(dt, 4)}
+        rec = {"verdict": verdict, "seconds": round(dt, 4), "rung": getattr(eng, "last_rung", "")}
         if model is not None:
             rec["model"] = model_summary(eng, model)
     except Exception as e:  # engine fault: never a verdict
